@@ -201,9 +201,6 @@ def generate(rng, tier):
         elif solver == "bayes":
             p = {"bounds": [b for b in bounds], "max_iter": rng.randrange(1, 10), "n_initial": rng.randrange(1, 5),
                  "acquisition": rng.choice(["ei", "ucb"]), "kappa": rng.choice([0.5, 2.0]), "acq_restarts": rng.randrange(1, 3)}
-            for b in p["bounds"]:
-                if b[0] == b[1]:
-                    b[1] = b[0] + 1.0
         elif solver == "powell":
             p = {"x0": x0, "bounds": rng.choice([None, bounds]), "max_iter": rng.choice([0, 1, 2, 5]), "tol": rng.choice([1e-6, 1e-2])}
         else:
@@ -500,6 +497,17 @@ def judge(o: Outcome, case, run, label, minimize, negate=False, faulted=False):
             o.violate(PROP, "not_best_evaluated", f"{label}: returned objective {r.objective!r} but call #{idx} evaluated "
                       f"{run.history[idx][0]!r} -> {best!r} ({'cancelled at tick %s' % run.cancelled_at if run.cancelled_at else 'not cancelled'})",
                       cancelled=bool(run.cancelled_at), **key)
+    # (b') at least as good as every starting point the caller supplied (clipped into the bounds, as the solvers document)
+    starts = case["params"].get("initial_population") or case["params"].get("initial_positions")
+    if solver in ("de", "pso") and starts:
+        for x in starts:
+            cx = [max(lo, min(hi, xi)) for xi, (lo, hi) in zip(x, case["params"]["bounds"])]
+            sv = true_value(case, cx, negate)
+            if sv is not None and (r.objective > sv if minimize else r.objective < sv):
+                o.violate(PROP, "worse_than_start", f"{label}: returned objective {r.objective!r} but the supplied starting point {x!r} "
+                          f"(clipped {cx!r}) has objective {sv!r}; {len(starts)} starting points for a population of "
+                          f"{case['params'].get('population_size', case['params'].get('n_particles'))}", **key)
+                break
     # (c) evaluations = number of objective calls
     if r.evaluations != len(run.history):
         o.violate(PROP, "evals_mismatch", f"{label}: evaluations={r.evaluations} but {len(run.history)} objective calls recorded", **key)
